@@ -1479,15 +1479,15 @@ def run_(ctx):
         "protobuf decoding is the library's: the model takes the decoded record (and what the library makes of each Any value) as input; "
         "panics inside protobuf, TOML, zmq, pion, obfs4, noise, gopacket, maxminddb, net/http are outside the model",
         "the phantom selector never returns (nil, nil) and an IPv4 selection is an IPv4 address (C14's theorems); its verdict is an oracle input of the model",
-        "the registrar's configuration satisfies wf_rpcfg (64-byte signing key; override subnets with fewer than 32 host bits, known prefix ids, "
-        "non-nil exclusions; metrics object present) — configuration, not external input",
+        "the registrar's configuration satisfies wf_rpcfg (a signing key of the right size when authentication is on; with enforcement on: "
+        "non-nil exclusions, weight tables no longer than their subnet lists, the default prefix table's keys are 0..n-1; metrics object present) — configuration, not external input",
         "strings.Split returns a non-empty slice (wf_req); the default prefix table satisfies tbl_wf (re-checked on the dumped table on every run)",
         "the Go in-package drivers, the case generators and the JSON->Gallina emitter are trusted",
     ]
     ctx.cov["trusted_base"] = [
         "Coq 8.16.1 kernel (coqc; coqchk in the thorough tier); vm_compute for evaluating the model on cases; no native_compute",
         "no axioms: every theorem prints 'Closed under the global context'",
-        "hand-written model coq/C11/{Prim,Msg,Flight,Dns}.v tied to the code by the correspondence run (drivers + emitter trusted)",
+        "hand-written model coq/C11/{Prim,Msg,Flight,Dns,Down}.v tied to the code by the correspondence run (drivers + emitter trusted)",
     ]
     ctx.cov["rule"] = ("per entry point, single-dimension and pairwise variations of absent sub-messages / field values at and around every guard / "
                        "wrong-length addresses and secrets / mismatched Any types around well-formed messages, plus a seeded malformed stream; "
